@@ -229,3 +229,36 @@ func (r *ReplayData) Decode(v any) {
 		panic(err)
 	}
 }
+
+// SetCurrent remembers the execution in progress so that a crash of the worker
+// (a panic in an implementation goroutine cannot be recovered by the harness)
+// still leaves a replayable choice list behind in $VERIF_OUT.current.
+type chooser interface{ Choices() []int }
+
+var (
+	curFile *os.File
+	curC    chooser
+)
+
+func SetCurrent(c chooser) {
+	curC = c
+}
+
+// FlushCurrent writes the choices taken so far by the current execution.
+func FlushCurrent() {
+	out := os.Getenv("VERIF_OUT")
+	if out == "" || curC == nil {
+		return
+	}
+	if curFile == nil {
+		f, err := os.OpenFile(out+".current", os.O_CREATE|os.O_RDWR|os.O_TRUNC, 0o644)
+		if err != nil {
+			return
+		}
+		curFile = f
+	}
+	b, _ := json.Marshal(curC.Choices())
+	b = append(b, '\n')
+	curFile.Truncate(0)
+	curFile.WriteAt(b, 0)
+}
